@@ -188,6 +188,28 @@ def configurations(tier, rng):
                                     side=(0.3, 0.3, 0.3))))
         cfgs.append(("gamma14", dict(base, ncell=(12, 8, 8), nsub=(3, 2, 1), periodic=(False, False, True),
                                      side=(1.1, 0.6, 0.9), gamma=1.4)))
+        # seeded geometries: odd cell counts, sides that are not representable, all periodicity patterns, optional
+        # components in combination
+        shapes = [(6, 10, 14), (9, 6, 12), (10, 10, 5), (15, 4, 8), (7, 7, 7), (12, 18, 6)]
+        subs = {6: (1, 2, 3), 10: (1, 2, 5), 14: (1, 2, 7), 9: (1, 3), 12: (1, 2, 3, 4), 5: (1, 5), 15: (1, 3, 5), 4: (1, 2, 4), 8: (1, 2, 4),
+                7: (1, 7), 18: (1, 2, 3), }
+        for j in range(14):
+            nc = rng.choice(shapes)
+            ns = tuple(rng.choice(subs[v]) for v in nc)
+            if ns[0] * ns[1] * ns[2] > 24:
+                continue
+            per = tuple(rng.random() < 0.5 for _ in range(3))
+            side = tuple(round(rng.uniform(0.2, 1.7), 3) for _ in range(3))
+            extra = ""
+            if all(per) and rng.random() < 0.5:
+                extra += "  turbulent forcing: true\n"
+            if rng.random() < 0.4:
+                extra += "  use mask: true\n"
+            blocks = (TURB if "turbulent" in extra else "") + \
+                (MASK.replace("[0.25 m, 0.5 m, 0.5 m]", "[%r m, %r m, %r m]" % (0.3 * side[0], 0.5 * side[1], 0.5 * side[2]))
+                     .replace("radius: 0.2 m", "radius: %r m" % (0.18 * min(side))) if "mask" in extra else "")
+            cfgs.append(("seeded%d" % j, dict(base, ncell=nc, nsub=ns, periodic=per, side=side, gamma=rng.choice([5. / 3., 1.4, 1.1]),
+                                              extra=extra + blocks)))
     return cfgs
 
 
@@ -197,7 +219,7 @@ def run(c):
     rd = c.rd.path
     exe = hydrolib.driver()
     N = 5 if tier == "quick" else 10
-    chains = [[1, 2, 3], [2, 4]] if tier == "quick" else [[1, 2, 3], [2, 4], [3, 6, 9], [1, 5, 6, 7]]
+    chains = [[1, 2, 3], [2, 4]] if tier == "quick" else [[1, 2, 3], [2, 4], [3, 6, 9], [1, 5, 6, 7], [1, 2, 3, 4, 5, 6, 7, 8, 9], [4, 5], [9]]
     cfgs = configurations(tier, rng)
 
     def job(item):
